@@ -58,7 +58,7 @@ def corrupt(d, how):
 
 def correspond(ctx):
     rng = ctx.rng
-    count = 14 if ctx.quick() else 120
+    count = 15 if ctx.quick() else 120
     exprs, cases, feats = [], [], {}
     for k in range(count):
         p = geomgen.gen_any(rng, k, quick=ctx.quick())
@@ -68,7 +68,7 @@ def correspond(ctx):
         if msg:
             ctx.fail(msg, problem=p)
             continue
-        if len(d["T"]) > (2500 if ctx.quick() else 8000):
+        if len(d["T"]) > (1500 if ctx.quick() else 8000):
             continue
         e, info = meshlib.to_coq(d)
         exprs.append(e)
